@@ -655,6 +655,8 @@ class StmtMixin(object):
                 v = self.ev(dn[0])
             if not p['type']['qualType'].strip().endswith('&') and (isE(v) or isinstance(v, (ScalarVar, CellRef))):
                 v = self.scalar(v, n)
+            if isinstance(v, InitList):
+                v = self.pass_arg(p['type']['qualType'], v, tenv, p.get('name') or 'arg', n)
             ns[p.get('name')] = v
         rt = m['type']['qualType'].split('(')[0].strip()
         ret = None
@@ -703,6 +705,8 @@ class StmtMixin(object):
                 v = PtrV(E.var('p_%s_null' % pname, BOOL), tgt, 'param')
             elif td.kind == 'ptr':
                 v = self.declare(PtrSlot('p_' + pname, td.to))
+                if td.to.kind in ('string', 'real', 'int', 'bool'):
+                    v.target = self.make_value(td.to, 'p_%s_val' % pname)
             elif td.kind == 'enum':
                 sv = self.declare(ScalarVar('p_' + pname, INT))
                 v = EnumV(td.name, E.const(self.pins['p_' + pname]) if ('p_' + pname) in self.pins else sv.rd())
